@@ -181,6 +181,7 @@ def reference(case, dyn, x0, t_final):
                     sol = solve_ivp(f, (cur, tb), x, method="DOP853", rtol=1e-12, atol=1e-12, events=ev)
                     x = sol.y[:, -1]
                     if sol.status == 1 and sol.t[-1] < tb:
+                        case["_crossings"] = case.get("_crossings", 0) + 1
                         cur = float(np.nextafter(sol.t[-1], np.inf)) + 1e-9
                         # step just across the plane without thrust ambiguity
                         x = x + 1e-9 * np.concatenate([x[3:], np.zeros(3)])
@@ -243,6 +244,9 @@ def eval_case(ctx, case):
         if end_cls is not None:
             end_cls.getStateChangeCallback = orig_end
         sk.teardown(b)
+    if err and "EarthCollisionError" in err:
+        ctx.count("cases_skipped_reentry")  # the generated burn de-orbits the satellite: not a subject of the property
+        return
     if err:
         ctx.check(False, "run-raised", f"run raised {err}", wit, mon="burn_trajectory")
         return
@@ -260,8 +264,13 @@ def eval_case(ctx, case):
     # (twice: start and end); orbital dynamics amplify the resulting velocity offset by a small factor
     amag = float(np.linalg.norm(case["vec"])) if case["burn"].startswith("burn") else abs(case["mag"])
     jitter_v = 6.0 * amag * 1e-4
-    tol_r = 1e-5 + 30.0 * e_r + jitter_v * t_final
-    tol_v = 1e-8 + 30.0 * e_v + jitter_v
+    # a plane-change thrust flips sign when the satellite crosses the equatorial plane: the repository integrates
+    # across that discontinuity with its adaptive step control (no event), the reference stops exactly on it.
+    # Allow the equivalent of a 20 ms switching error per crossing (measured: <= 2 ms).
+    ncross = int(case.pop("_crossings", 0))
+    cross_v = 0.02 * amag * ncross
+    tol_r = 1e-5 + 30.0 * e_r + (jitter_v + cross_v) * t_final
+    tol_v = 1e-8 + 30.0 * e_v + jitter_v + cross_v
     if tol_v > 0.2 * effect and effect > 0:
         ctx.count("cases_effect_below_resolution")
     misaligned_end = case["t_off"] % case["step"] != 0 or bool(case.get("second") and case["second"]["t_off"] % case["step"] != 0)
